@@ -23,6 +23,7 @@ Separate Extraction
   LogParse.rocket_match LogParse.cva6_match LogParse.py_int
   Records.generation_data Records.methods_info Records.pics_info Records.id_draws
   Generator.run_gen Generator.make_config Generator.m_total ImageSem.cfg_ok
+  ImageSem.count_method ImageSem.need_method ImageSem.max_depth
   Samplers.trunc_norm Samplers.generate_poisson Samplers.generate_ztp Samplers.body_size_of Samplers.call_nb_of
   Samplers.kind_is_pic Samplers.sign_of
   GenTables.t_runner_table_base GenTables.t_runner_table_tramp GenTables.t_runner_table_rimiss
